@@ -308,6 +308,8 @@ func runC20(c *Ctx) {
 		} else {
 			r.Bad("C20.R2", FuncID(fn), "missing-key", p.Pos(fn.Pos()), "a key of d1 that is missing in d2 no longer makes the dictionaries unequal")
 		}
+	} else {
+		r.Bad("C20.R2", "pkg/pdfcpu/model.equalDicts", "anchor", "", "UNRESOLVED-ANCHOR: function not found")
 	}
 	// ---- R3
 	if fn := p.Func("pkg/pdfcpu/model.weaveResourceSubDict"); fn == nil {
